@@ -54,7 +54,10 @@ func VerifC03Release() {
 		}
 	}
 	if collide {
-		verifC03Collision(e, l, recs)
+		// outside this harness's claim (finding F3); the C03 check carries the witness assertion
+		if verifrt.Param("f3_witness", 1) == 1 {
+			verifC03Collision(e, l, recs)
+		}
 		return
 	}
 	pre := l.Read()
